@@ -181,7 +181,7 @@ func checkC07(cs *c07Case, o *pt.Obs) error {
 	}
 	lo, hi := lq.TsBounds(cs.DS.Events)
 	info := columnInfo(cs.DS.Events)
-	prep := func(c *sut.Client, at int64, record bool) error {
+	prep := func(c *sut.Client, at int64, name string, occ int64, record bool) error {
 		if cs.Card > 0 {
 			if err := c.Set("cardLimit", int64(cs.Card)); err != nil {
 				return err
@@ -194,7 +194,9 @@ func checkC07(cs *c07Case, o *pt.Obs) error {
 		if record {
 			rec = 1
 		}
-		return c.Call(&sut.Req{Op: "crash_arm", Ints: map[string]int64{"at": at, "record": rec}}, nil)
+		// a named target (the occ-th hit of one point) when the dry run gave the point a name: counting per
+		// name is not shifted by background goroutines that pass other points
+		return c.Call(&sut.Req{Op: "crash_arm", Name: name, Ints: map[string]int64{"at": at, "occ": occ, "record": rec}}, nil)
 	}
 	// 1. dry run: count the crash points this history executes
 	var cc crashCount
@@ -207,7 +209,7 @@ func checkC07(cs *c07Case, o *pt.Obs) error {
 		o.Class("prior_life_killed_before_first_flush")
 	}
 	err := pt.WithWorker(sut.Options{DataDir: dryDir}, func(c *sut.Client) error {
-		if err := prep(c, 0, true); err != nil {
+		if err := prep(c, 0, "", 0, true); err != nil {
 			return err
 		}
 		st, err := execute(c, cs, lo, hi)
@@ -254,10 +256,16 @@ func checkC07(cs *c07Case, o *pt.Obs) error {
 	// 3. one crash + restart per point
 	for _, k := range points {
 		name := ""
+		occ := int64(0)
 		if k-1 < len(cc.Names) {
 			name = cc.Names[k-1]
+			for _, nm := range cc.Names[:k] {
+				if nm == name {
+					occ++
+				}
+			}
 		}
-		if err := crashAndRecover(cs, k, name, lo, hi, info, prep, o); err != nil {
+		if err := crashAndRecover(cs, k, name, occ, lo, hi, info, prep, o); err != nil {
 			if _, ok := err.(*pt.Inconclusive); ok {
 				o.Count("inconclusive_points", 1)
 				continue
@@ -276,8 +284,8 @@ type pointFailure struct {
 
 func (p *pointFailure) Error() string { return p.err.Error() }
 
-func crashAndRecover(cs *c07Case, k int, name string, lo, hi uint64, info map[string]*colInfo,
-	prep func(*sut.Client, int64, bool) error, o *pt.Obs) error {
+func crashAndRecover(cs *c07Case, k int, name string, occ int64, lo, hi uint64, info map[string]*colInfo,
+	prep func(*sut.Client, int64, string, int64, bool) error, o *pt.Obs) error {
 	dataDir := pt.NewDataDir()
 	defer pt.CleanupDataDir(dataDir)
 	envq := map[string]string{"VERIF_LOGLEVEL": "error"}
@@ -290,7 +298,11 @@ func crashAndRecover(cs *c07Case, k int, name string, lo, hi uint64, info map[st
 	if err != nil {
 		return pt.Inconclusivef("worker start: %v", err)
 	}
-	if err := prep(a, int64(k), false); err != nil {
+	at := int64(k)
+	if name != "" {
+		at = 0
+	}
+	if err := prep(a, at, name, occ, false); err != nil {
 		a.Close()
 		return err
 	}
@@ -488,6 +500,9 @@ func stratified(names []string, n int, salt int64) []int {
 	var fns []string
 	for i, nm := range names {
 		fn := strings.SplitN(nm, ":", 2)[0]
+		if strings.HasPrefix(fn, "os.") {
+			fn = nm // the windows of a modelled system-call sequence are strata of their own
+		}
 		if _, ok := byFn[fn]; !ok {
 			fns = append(fns, fn)
 		}
@@ -499,6 +514,12 @@ func stratified(names []string, n int, salt int64) []int {
 	next := func(m int) int {
 		x = x*6364136223846793005 + 1442695040888963407
 		return int((x >> 33) % uint64(m))
+	}
+	// the order in which the strata are visited differs from case to case (the sample is smaller than the
+	// number of strata, a fixed order would never reach the last ones)
+	for i := len(fns) - 1; i > 0; i-- {
+		j := next(i + 1)
+		fns[i], fns[j] = fns[j], fns[i]
 	}
 	for len(picked) < n {
 		progressed := false
